@@ -76,7 +76,9 @@ def gen_cases(chk):
                 absb = rng.choice((1.0, 2.0)) if ty in (2, 3) else rng.choice((1.0, 2.0, 5.0))
             rel = rng.choice((1e-2, 1e-3))
             cfg = rng.choice(("-", "szMode=SZ_BEST_SPEED", "-", "withLinearRegression=NO"))
-            data = "g:%d:%x:%x:%s:%s" % (rng.choice((0, 0, 1, 2, 3)), rng.getrandbits(24), n, dbits(scale), dbits(off))
+            # (the random walk, kind 2, wanders ~0.03*sqrt(n) amplitudes away from the centre: for integers it is used only while that stays inside a_)
+            kinds = (0, 0, 1, 2, 3) if (ty < 2 or n <= 400) else (0, 0, 1, 3)
+            data = "g:%d:%x:%x:%s:%s" % (rng.choice(kinds), rng.getrandbits(24), n, dbits(scale), dbits(off))
             sq = squeeze(t)
             variants = [(t, t)]
             if list(sq) != list(t):
